@@ -202,6 +202,8 @@ func oracle(c *octx) *eng.Violation {
 		return first(c.mainEq("path", projVisits, false), c.onlyModelVisits("off-path"), c.outcome("result", false, false))
 	case "C04":
 		return first(c.outcome("error", false, true), c.failStop("fail-stop"))
+	case "C05":
+		return c.cancelRules()
 	case "C06":
 		return first(c.slots("slot"), c.mainEq("post-once", projC06, false))
 	case "C07":
@@ -450,6 +452,82 @@ func (c *octx) slotsHonest() *eng.Violation {
 				if !strings.HasPrefix(got[ii], "ER(") && !strings.HasSuffix(lastEv.Kind, "_end") {
 					return c.viol("slot", "batch node %d: item %d was cut short yet its slot holds %q", mb.N, ii, got[ii])
 				}
+			}
+		}
+	}
+	return nil
+}
+
+// ---- cancellation (C05) -----------------------------------------------------------
+
+func (c *octx) cancelRules() *eng.Violation {
+	sc := c.sc
+	for i, mr := range c.mod.Runs {
+		or := c.obs.Runs[i]
+		e := or.End
+		if sc.Ctx.Kind == "precancel" || sc.Ctx.Kind == "predeadline" {
+			for _, ev := range or.All {
+				if isCallback(ev.Kind) {
+					return c.viol("callback-on-done-context", "the context was already done when the run started, yet %s of node %d was invoked", ev.Kind, ev.N)
+				}
+			}
+			if e.S2 == "nil" || e.S3 != "matches-ctx" {
+				return c.viol("done-context-not-reported", "the context was already done when the run started; the run returned action %q error %q (%s)", e.S1, e.S2, e.S3)
+			}
+			continue
+		}
+		// the cancellation point
+		after := func(ev simrt.Event) bool { return false }
+		cancelled := false
+		switch {
+		case len(or.Cancels) > 0:
+			k := or.Cancels[0].Seq
+			after = func(ev simrt.Event) bool { return ev.Seq > k }
+			cancelled = true
+		case sc.Ctx.Kind == "deadline":
+			d := sc.Ctx.DeadlineUs * 1000
+			after = func(ev simrt.Event) bool { return ev.T > d }
+			cancelled = e.T > d
+		}
+		if !cancelled {
+			continue
+		}
+		count := func(kind string) (n int) {
+			for _, ev := range or.Main {
+				if ev.Kind == kind {
+					n++
+				}
+			}
+			return
+		}
+		for _, ev := range or.Main {
+			if !after(ev) {
+				continue
+			}
+			switch ev.Kind {
+			case "exec_start":
+				return c.viol("attempt-after-cancel", "exec attempt %d of node %d started at seq %d, after the context had been cancelled", ev.A, ev.N, ev.Seq)
+			case "prep_start":
+				return c.viol("node-after-cancel", "node %d was started at seq %d, after the context had been cancelled", ev.N, ev.Seq)
+			}
+		}
+		wantStarts := 0
+		for _, me := range mr.Main {
+			if me.Kind == "exec_start" || me.Kind == "prep_start" {
+				wantStarts++
+			}
+		}
+		if sc.Ctx.Kind == "deadline" && e.T == sc.Ctx.DeadlineUs*1000 {
+			c.out.Probes["cancel_landed_in_wait"]++
+		}
+		if got := count("exec_start") + count("prep_start"); got < wantStarts {
+			// cut short by the cancellation
+			c.out.Probes["run_cut_short"]++
+			if e.S2 == "nil" {
+				return c.viol("cut-short-reported-success", "the run was cut short by the cancellation (%d of %d attempts/nodes started) but returned success (action %q)", got, wantStarts, e.S1)
+			}
+			if e.S3 != "matches-ctx" {
+				return c.viol("cut-short-wrong-error", "the run was cut short by the cancellation but its error %q does not match the context's error", e.S2)
 			}
 		}
 	}
